@@ -331,8 +331,9 @@ def nontrivial(fn, args):
 RULE = ("random structured locations (simple / multi-exon / origin-spanning, strands +,-,0,None) on records of "
         "length 2..60 (and a few large), for each public function of secmet.locations, Record.extend_location, "
         "Feature.__lt__ and CDSCollection.__lt__ (model vs implementation), the decidable set-of-bases specification "
-        "evaluated on every implementation output of overlap/contains/distance/connect/offset/extend, and a text "
-        "round-trip oracle; non-trivial = a compound location is involved or the function is connect/offset/extend; "
+        "evaluated on every implementation output of overlap/contains/distance/connect/offset/extend, every "
+        "CDSCollection.__lt__ pair also asked the other way round (asymmetry), the regression corpus of the repaired "
+        "findings first, and a text round-trip oracle; non-trivial = a compound location is involved or the function is connect/offset/extend; "
         "distinct by flat encoding")
 
 
@@ -354,12 +355,34 @@ CLAUSES = {
 
 
 # recorded finding classes: (function, class number computed in Gallina by fn 208) -> (class name, clause it violates)
-FINDING_CLASSES = {(8, 1): ("extend_near_full", 3), (8, 2): ("extend_lower_lost", 6)}
+# (the class extend_lower_lost, F09b, was repaired: nothing is suppressed for it, its witnesses are in CORPUS)
+FINDING_CLASSES = {(8, 1): ("extend_near_full", 3)}
 CLASS_FN = {8: 208}
 WITNESSES = {  # class name -> (fn, args) replayed on the implementation every run
     "extend_near_full": (8, ([(3, 4, NONE), (0, 3, NONE)], 2, 4, True)),
-    "extend_lower_lost": (8, ([(0, 1, NONE), (3, 4, NONE)], 2, 4, True)),
 }
+
+# regression corpus, run first on every run: (fn, args, record length).  Witnesses of the repaired findings
+# F09b extend_lower_lost (the lower extension was dropped when the upper one had been merged: a base within the
+# distance was missing; with and without exons left in the middle, both strands, the two extensions touching /
+# not touching) and F53 collection_lt_not_asymmetric = C10-F46 whole_record_vs_origin_spanning_order (whole
+# record vs origin-spanning collection, both ways; also the candidate clusters of the C10 witness).
+CORPUS = [
+    (8, ([(0, 1, NONE), (3, 4, NONE)], 2, 4, True), 4),
+    (8, ([(3, 4, -1), (0, 1, -1)], 2, 4, True), 4),
+    (8, ([(1, 2, 1), (3, 6, 1)], 5, 8, True), 8),
+    (8, ([(0, 1, 1), (3, 5, 1)], 2, 5, True), 5),
+    (8, ([(2, 3, 1), (8, 10, 1), (17, 18, 1)], 6, 20, True), 20),
+    (8, ([(17, 18, -1), (8, 10, -1), (2, 3, -1)], 6, 20, True), 20),
+    (8, ([(2, 3, 1), (8, 10, 1), (17, 18, 1)], 4, 20, True), 20),
+    (8, ([(2, 3, 1), (5, 6, 1), (17, 18, 1)], 7, 20, True), 20),
+    (8, ([(0, 1, 1), (1, 2, 1)], 1, 2, True), 2),
+    (13, ([(0, 10, 1)], [(7, 10, 1), (0, 2, 1)]), 10),
+    (13, ([(7, 10, 1), (0, 2, 1)], [(0, 10, 1)]), 10),
+    (13, ([(0, 300, 1)], [(249, 300, 1), (0, 109, 1)]), 300),
+    (13, ([(249, 300, 1), (0, 109, 1)], [(0, 300, 1)]), 300),
+    (13, ([(0, 10, -1)], [(0, 10, 1)]), 10),
+]
 
 
 def known_classes():
@@ -394,23 +417,36 @@ def suppress_known(chk, cases, impl_outs, model_outs, failing):
     return kept
 
 
-def order_finding(chk):
-    """ recorded finding collection_lt_not_asymmetric (theorem C04_order_collection_refuted): printed only while
-        listed as known and the witness still reproduces on the implementation; the model is compared with
-        the implementation on the witness like on any other case (function 13) """
-    entry = known_classes().get("collection_lt_not_asymmetric")
-    whole, span = [(0, 10, 1)], [(7, 10, 1), (0, 2, 1)]
-    outs = [impl(13, (whole, span)), impl(13, (span, whole))]
-    reproduces = outs == [[0, 1], [0, 1]]
-    if reproduces and entry:
-        chk.known(entry.get("what_fails", "collection_lt_not_asymmetric"))
-    elif reproduces:
-        chk.violation("counterexample", "CDSCollection.__lt__ is not asymmetric: whole-record collection < origin-spanning "
-                      "location and origin-spanning collection < whole-record location",
-                      {"theorem_or_correspondence": "C04_order_collection_refuted", "function": 13,
-                       "input": {"record_length": 10, "a": whole, "b": span}, "implementation": outs})
-    else:
-        chk.count("known_finding_no_longer_reproduces_collection_lt_not_asymmetric")
+ORDER_SPEC_FN = 113
+
+
+def order_search(chk, cases, impl_outs):
+    """ CDSCollection.__lt__ is asymmetric (theorem C04_order_collection_asym; finding F53
+        collection_lt_not_asymmetric, repaired): for EVERY generated pair the implementation is also asked the
+        other way round and the Gallina specification 113 decides `not (a < b and b < a)` on the two answers """
+    idx = [i for i, c in enumerate(cases) if c[1] == 13]
+    spec_cases = []
+    for i in idx:
+        a, b = ARGS_OF[tuple(cases[i])]
+        spec_cases.append([PROP, ORDER_SPEC_FN] + cases[i][2:] + impl_outs[i] + impl(13, (b, a)))
+    chk.evaluations += len(idx)
+    failing = []
+    for i, flat, verdict in zip(idx, spec_cases, common.run_driver(spec_cases)):
+        chk.count({1: "order_spec_ok", 0: "order_spec_violated", 2: "order_spec_not_applicable"}.get(verdict[0], "order_spec_undecoded"))
+        if verdict[0] == 0:
+            failing.append((len(flat), i, flat))
+        elif verdict[0] not in (1, 2):
+            chk.violation("broken-correspondence", "specification of CDSCollection.__lt__ could not decode a case",
+                          {"theorem_or_correspondence": "spec decoding", "flat": flat})
+            return
+    chk.extra["order_pairs_asked_both_ways"] = len(idx)
+    if failing:
+        _size, i, flat = min(failing)
+        a, b = ARGS_OF[tuple(cases[i])]
+        chk.violation("counterexample", "CDSCollection.__lt__ is not asymmetric: collection(a) < b and collection(b) < a both hold",
+                      {"theorem_or_correspondence": "C04_order_collection_asym / specification 113", "function": 13,
+                       "flat": cases[i], "input": describe(cases[i]), "a": a, "b": b,
+                       "implementation [a < b, b < a]": flat[-4:], "cases_violating": len(failing)})
 
 
 def spec_search(chk, cases, impl_outs, model_outs):
@@ -457,8 +493,8 @@ def run(chk):
         return chk.finish(RULE)
     total = 30000 if chk.tier == "quick" else 600000
     cases, impl_outs = [], []
-    for _ in range(total):
-        fn, args, n = gen_case(chk.rng)
+    for k in range(total):
+        fn, args, n = CORPUS[k] if k < len(CORPUS) else gen_case(chk.rng)
         flat = [PROP, fn] + encode(fn, args)
         ARGS_OF[tuple(flat)] = args
         out = impl(fn, args)
@@ -471,7 +507,7 @@ def run(chk):
                       {"function": FN_NAMES[fn], "args": args, "record_length": n, "implementation": out})
     model_outs = common.correspondence(chk, cases, impl_outs, spec_fn_offset=SPEC_OFFSET, describe=describe)
     spec_search(chk, cases, impl_outs, model_outs)
-    order_finding(chk)
+    order_search(chk, cases, impl_outs)
     text_round_trip(chk, chk.rng, 3000 if chk.tier == "quick" else 60000)
     chk.crosscheck_vm(cases, model_outs)
     return chk.finish(RULE)
